@@ -63,15 +63,37 @@ type regRun struct {
 	late   []lateUse
 }
 
-func newRegRun(opt405 bool) *regRun {
+// newRegRun: cache 0 = no route cache, 1000 = EnableCaching (its default size), n = CachingWithNum(n).
+func newRegRun(opt405 bool, cache int) *regRun {
 	e := &regRun{opt405: opt405, bufs: map[int][]rux.HandlerFunc{}, routes: map[int]*rux.Route{},
 		snaps: map[int]regSnap{}, seen: map[*rux.Route]bool{}}
+	var opts []func(*rux.Router)
 	if opt405 {
-		e.r = rux.New(rux.HandleMethodNotAllowed)
-	} else {
-		e.r = rux.New()
+		opts = append(opts, rux.HandleMethodNotAllowed)
 	}
+	switch {
+	case cache == 1000:
+		opts = append(opts, rux.EnableCaching)
+	case cache > 0:
+		opts = append(opts, rux.CachingWithNum(uint16(cache)))
+	}
+	e.r = rux.New(opts...)
 	return e
+}
+
+// parseNew reads `new <405?> [<cache>]`.
+func parseNew(f []string) (opt405 bool, cache int, ok bool) {
+	if len(f) < 2 || len(f) > 3 || f[0] != "new" {
+		return false, 0, false
+	}
+	if len(f) == 3 {
+		c, okc := parseInts(f[2])
+		if !okc || len(c) != 1 || c[0] > 65535 || len(f[2]) > 5 {
+			return false, 0, false
+		}
+		cache = c[0]
+	}
+	return f[1] == "1", cache, true
 }
 
 // mw builds a middleware that records its tag, calls Next and records its return.
@@ -571,17 +593,17 @@ func (e *regRun) request(method, path string) (string, string) {
 }
 
 func (regEngine) Run(ops []string) (ans []string, oracle []string) {
-	e := newRegRun(false)
+	e := newRegRun(false, 0)
 	for _, op := range ops {
-		f := strings.Fields(op)
-		if len(f) == 2 && f[0] == "new" {
-			e = newRegRun(f[1] == "1")
+		if o, c, ok := parseNew(strings.Fields(op)); ok {
+			oracle = append(oracle, e.oracle...)
+			e = newRegRun(o, c)
 			ans = append(ans, "ok")
 			continue
 		}
 		ans = append(ans, e.step(op))
 	}
-	return ans, e.oracle
+	return ans, append(oracle, e.oracle...)
 }
 
 // step executes one op line (everything except `new`) on this router.
@@ -791,6 +813,38 @@ func (regEngine) Corpus() []Case {
 		{Ops: []string{"new 0", "buf 1 2000,2001,2002", "group " + h("/x") + " @1:0:2", "group " + h("/n") + " 2003",
 			"route 1 verb - GET " + h("/r1") + " - e", "end", "end", "group " + h("/y") + " @1:0:3",
 			"route 2 verb - GET " + h("/r2") + " - e", "end", "run", "info 2", "serve 2 GET"}},
+		// a route whose own path begins with the characters of the group prefix in effect is prefixed like every
+		// other route: (a) the full prefix, without a segment boundary / followed by a variable / at depth 2,
+		// (b) the innermost prefix only, (c) a Controller whose AddRoutes uses its own prefix again
+		{Ops: []string{"new 0", "group " + h("/api") + " 2000", "route 1 verb - GET " + h("/users") + " - e",
+			"route 2 verb - GET " + h("/api-keys") + " - e", "route 3 verb - GET " + h("/api/{id}") + " - 2001",
+			"route 4 add - PUT " + h("/api") + " - -", "group " + h("/v1") + " 2002", "route 5 verb - GET " + h("/status") + " - e",
+			"route 6 verb - POST " + h("/api/v1") + " - e", "route 7 verb - GET " + h("/v1") + " - e",
+			"route 8 pre - DELETE " + h("/v1-x/{id}") + " 2003 -", "end", "end",
+			"controller " + h("/keys") + " -", "route 9 verb - GET " + h("/keys/{id}") + " - e",
+			"route 10 verb - GET " + h("/keys-rotate") + " - e", "end", "run",
+			"info 1", "info 2", "info 3", "info 4", "info 5", "info 6", "info 7", "info 8", "info 9", "info 10",
+			"serve 2 GET", "serve 3 GET", "serve 4 PUT", "serve 6 POST", "serve 7 GET", "serve 8 DELETE", "serve 9 GET", "serve 10 GET",
+			"probe GET " + h("/api/users"), "probe GET " + h("/api/api-keys"), "probe GET " + h("/api/api/v2"),
+			"probe PUT " + h("/api/api"), "probe GET " + h("/api/v1/status"), "probe POST " + h("/api/v1/api/v1"),
+			"probe GET " + h("/api/v1/v1"), "probe DELETE " + h("/api/v1/v1-x/7"), "probe GET " + h("/keys/keys/12"),
+			"probe GET " + h("/keys/keys-rotate"),
+			"probe GET " + h("/api-keys"), "probe GET " + h("/api/v2"), "probe PUT " + h("/api"), "probe POST " + h("/api/v1"),
+			"probe GET " + h("/v1"), "probe DELETE " + h("/v1-x/7"), "probe GET " + h("/keys/12"), "probe GET " + h("/keys-rotate"),
+			"routes"}},
+		{Ops: []string{"new 1", "group " + h("/api") + " -", "route 1 verb - GET " + h("/api-keys") + " - e", "end", "run",
+			"info 1", "probe GET " + h("/api/api-keys"), "probe GET " + h("/api-keys"), "probe POST " + h("/api/api-keys")}},
+		// a caching router: the middleware of a dynamic route runs on every request for the same URL, also on the
+		// ones served from the route cache (size 1: every other URL evicts; 1000: EnableCaching)
+		{Ops: []string{"new 0 1", "use 2000", "group " + h("/g") + " 2001", "route 1 verb - GET " + h("/a/{id}") + " - 2002/2003",
+			"route 2 pre - DELETE " + h("/b/{id}") + " 2004 2005", "end", "run", "serve 1 GET", "serve 1 GET", "serve 1 GET",
+			"serve 2 DELETE", "serve 2 DELETE", "serve 1 GET", "serve 2 DELETE", "probe GET " + h("/g/a/8"), "probe GET " + h("/g/a/8"),
+			"probe HEAD " + h("/g/a/8"), "probe HEAD " + h("/g/a/8"), "miss", "miss"}},
+		{Ops: []string{"new 1 1000", "group " + h("/api") + " 2000+2",
+			"resource 1000 ptr " + h("/") + " " + h("u127") + " 127 127 2001", "end", "run",
+			"serve 1003 GET", "serve 1003 GET", "serve 1004 GET", "serve 1004 GET", "serve 1004 GET", "serve 1005 PATCH",
+			"serve 1005 PATCH", "serve 1005 PUT", "serve 1005 PUT", "serve 1006 DELETE", "serve 1006 DELETE", "serve 1006 DELETE",
+			"serve 1000 GET", "serve 1000 GET", "serve 1003 GET", "probe POST " + h("/api/u127/7"), "probe POST " + h("/api/u127/7")}},
 		// shared caller array without spare capacity: harmless
 		{Ops: []string{"new 0", "buf 1 2000,2001,2002", "group " + h("/x") + " @1:1:3", "use 2003",
 			"route 1 verb - GET " + h("/r1") + " - e", "end", "group " + h("/y") + " @1:0:3",
@@ -820,12 +874,71 @@ type regGen struct {
 	bufLen  map[int]int
 	usedRes map[string]bool
 	thor    bool
+	pfxs    []string        // formatted prefixes of the open groups, outermost first
+	stored  map[string]bool // stored paths of the prefix-like routes generated so far
+	caching bool            // the router of this case has a route cache
+	nLike   int             // routes whose own path begins like a group prefix
+	dyn     []string        // expected stored paths of the generated routes with a variable
+}
+
+// regPatMatch: does the pattern (variables: {id} = one non-empty segment) match the path?
+func regPatMatch(pat, path string) bool {
+	ps, ss := strings.Split(pat, "/"), strings.Split(path, "/")
+	if len(ps) != len(ss) {
+		return false
+	}
+	for i := range ps {
+		if ps[i] == "{id}" {
+			if ss[i] == "" {
+				return false
+			}
+		} else if ps[i] != ss[i] {
+			return false
+		}
+	}
+	return true
+}
+
+// shadowed: a generated route with a variable matches this path, so a request with a method the static route
+// at this path does not have is not a 404/405
+func (g *regGen) shadowed(path string) bool {
+	for _, d := range g.dyn {
+		if regPatMatch(d, path) {
+			return true
+		}
+	}
+	return false
 }
 
 type regGenRoute struct {
 	id      int
 	methods []string
 	static  bool
+	at      string // where the generator expects the route (statement routes only; used to keep requests unambiguous)
+	// routes whose own path begins like the group prefix: where the route must be (stored) and where it must
+	// not be unless something else is registered there (bare = its own formatted path, without the prefixes)
+	stored, bare string
+}
+
+// regFmt / regSfmt: formatPath (default slash mode) and simpleFmtPath on white-space-free strings, as in
+// cleanFmt / cleanSfmt of Model/Reg.lean. The generator needs them only to choose probe paths and to keep the
+// stored paths of its routes distinct; what a route's path has to be is the model's answer.
+func regFmt(s string) string {
+	t := strings.TrimRight(s, "/")
+	if t == "" {
+		return "/"
+	}
+	return "/" + strings.TrimLeft(t, "/")
+}
+
+func regSfmt(s string) string { return "/" + strings.TrimLeft(s, "/") }
+
+func regStored(full, path string) string {
+	p0 := regFmt(regSfmt(path))
+	if full != "" {
+		return regFmt(full + p0)
+	}
+	return p0
 }
 
 func (g *regGen) tag() int {
@@ -900,6 +1013,46 @@ func (g *regGen) spell(p string) string {
 	return p
 }
 
+// likePrefix: a route path that begins with the characters of a group prefix in effect - (0) the full
+// concatenated prefix, (1) the innermost group's prefix, (2) one of them continued without a segment
+// boundary ("/api" -> "/api-x7") - bare, followed by a further segment, or by a variable.
+// ok = false: not inside a group, or the path would be stored where another route of this case already is.
+func (g *regGen) likePrefix(id int) (path string, static, ok bool) {
+	if len(g.pfxs) == 0 {
+		return "", false, false
+	}
+	full := strings.Join(g.pfxs, "")
+	base := full
+	shape := g.r.Intn(3)
+	if shape == 1 || (shape == 2 && g.r.Bool()) {
+		base = g.pfxs[len(g.pfxs)-1]
+	}
+	if shape == 2 {
+		base = strings.TrimRight(base, "/") + fmt.Sprintf("-x%d", id)
+	}
+	static = true
+	switch g.r.Intn(6) {
+	case 0, 1:
+		path = base
+	case 2:
+		path = strings.TrimRight(base, "/") + fmt.Sprintf("/r%d", id)
+	case 3:
+		path = strings.TrimRight(base, "/") + "/v1"
+	default:
+		path = strings.TrimRight(base, "/") + "/{id}"
+		static = false
+	}
+	if g.r.Chance(1, 8) {
+		path = g.spell(path)
+	}
+	st := regStored(full, path)
+	if g.stored[st] || regFmt(regSfmt(path)) == "/" {
+		return "", false, false
+	}
+	g.stored[st] = true
+	return path, static, true
+}
+
 func (g *regGen) route() {
 	g.nextID++
 	id := g.nextID
@@ -908,6 +1061,13 @@ func (g *regGen) route() {
 		path += "/sub"
 	}
 	path = g.spell(path)
+	static, like := true, false
+	if len(g.pfxs) > 0 && g.r.Chance(1, 5) {
+		if p, st, ok := g.likePrefix(id); ok {
+			path, static, like = p, st, true
+			g.nLike++
+		}
+	}
 	kind := g.r.Pick([]string{"verb", "verb", "verb", "verb", "add", "add", "named", "any", "pre", "pre", "pre"})
 	name, ms, pre, post := "-", "-", "-", "-"
 	var methods []string
@@ -938,7 +1098,15 @@ func (g *regGen) route() {
 		ms = strings.Join(methods, ",")
 	}
 	g.ops = append(g.ops, fmt.Sprintf("route %d %s %s %s %s %s %s", id, kind, name, ms, hx(path), pre, post))
-	g.routes = append(g.routes, regGenRoute{id, methods, true})
+	rt := regGenRoute{id: id, methods: methods, static: static, at: regStored(strings.Join(g.pfxs, ""), path)}
+	if like {
+		rt.stored = rt.at
+		rt.bare = regFmt(regSfmt(path))
+	}
+	if !static {
+		g.dyn = append(g.dyn, rt.at)
+	}
+	g.routes = append(g.routes, rt)
 }
 
 func (g *regGen) resource() {
@@ -967,7 +1135,7 @@ func (g *regGen) resource() {
 	acts := [][]string{{"GET"}, {"GET"}, {"POST"}, {"GET"}, {"GET"}, {"PUT", "PATCH"}, {"DELETE"}}
 	for a := 0; a < 7; a++ {
 		if mask&(1<<uint(a)) != 0 {
-			g.routes = append(g.routes, regGenRoute{rid + a, acts[a], false})
+			g.routes = append(g.routes, regGenRoute{id: rid + a, methods: acts[a]})
 		}
 	}
 }
@@ -999,7 +1167,9 @@ func (g *regGen) body(depth int, top bool) {
 				// nested groups: give the outer list spare capacity so that inner groups append in place
 				a := g.arg(true)
 				g.ops = append(g.ops, fmt.Sprintf("%s %s %s", kw, hx(pfx), a))
+				g.pfxs = append(g.pfxs, regFmt(pfx))
 				g.body(depth+1, false)
+				g.pfxs = g.pfxs[:len(g.pfxs)-1]
 				g.ops = append(g.ops, "end")
 			}
 		case x < 90:
@@ -1014,14 +1184,29 @@ func (g *regGen) body(depth int, top bool) {
 	}
 }
 
+// again: how often a request line is sent in a row. The model has no cache (C07_transparent), so every
+// repetition must be answered like the first; on a caching router the repetitions are served from the cache.
+func (g *regGen) again() int {
+	if g.caching {
+		return g.r.PickInt([]int{1, 2, 2, 3})
+	}
+	if g.r.Chance(1, 12) {
+		return 2
+	}
+	return 1
+}
+
 func (g *regGen) probes() {
 	for _, rt := range g.routes {
 		g.ops = append(g.ops, fmt.Sprintf("info %d", rt.id))
 	}
 	for _, rt := range g.routes {
-		g.ops = append(g.ops, fmt.Sprintf("serve %d %s", rt.id, rt.methods[g.r.Intn(len(rt.methods))]))
+		line := fmt.Sprintf("serve %d %s", rt.id, rt.methods[g.r.Intn(len(rt.methods))])
+		for k := g.again(); k > 0; k-- {
+			g.ops = append(g.ops, line)
+		}
 		// a method the route does not have (405 / 404); static routes only, never HEAD/OPTIONS
-		if rt.static && len(rt.methods) < 9 && g.r.Chance(1, 3) {
+		if rt.static && len(rt.methods) < 9 && g.r.Chance(1, 3) && !g.shadowed(rt.at) {
 			for _, m := range []string{"DELETE", "PUT", "POST", "GET", "PATCH"} {
 				has := false
 				for _, x := range rt.methods {
@@ -1035,14 +1220,35 @@ func (g *regGen) probes() {
 				}
 			}
 		}
+		// a route whose own path begins like the group prefix: reachable under prefix + path, and its bare
+		// path resolves as if the route did not exist
+		if rt.stored != "" {
+			m := rt.methods[g.r.Intn(len(rt.methods))]
+			if m != "HEAD" && m != "OPTIONS" {
+				for _, p := range []string{rt.stored, rt.bare} {
+					line := fmt.Sprintf("probe %s %s", m, hx(strings.ReplaceAll(p, "{id}", "7")))
+					for k := g.again(); k > 0; k-- {
+						g.ops = append(g.ops, line)
+					}
+				}
+			}
+		}
 	}
 	g.ops = append(g.ops, "miss")
 }
 
 func (regEngine) Gen(r *Rand, tier string) Case {
-	g := &regGen{r: r, nextTag: 2000, nextRid: 900, bufLen: map[int]int{}, usedRes: map[string]bool{}, thor: tier == "thorough"}
-	g.ops = append(g.ops, fmt.Sprintf("new %d", r.Intn(2)))
+	g := &regGen{r: r, nextTag: 2000, nextRid: 900, bufLen: map[int]int{}, usedRes: map[string]bool{}, thor: tier == "thorough",
+		stored: map[string]bool{}}
 	tag := "plain"
+	if r.Chance(1, 4) {
+		// a router with a route cache (tiny ones evict all the time); request lines are then repeated
+		g.caching = true
+		g.ops = append(g.ops, fmt.Sprintf("new %d %d", r.Intn(2), r.PickInt([]int{1, 2, 3, 1000})))
+		tag = "caching"
+	} else {
+		g.ops = append(g.ops, fmt.Sprintf("new %d", r.Intn(2)))
+	}
 	if r.Chance(1, 6) {
 		// a shared caller array; arguments are taken from its END only (no spare capacity behind them)
 		n := r.Range(2, 4)
@@ -1052,7 +1258,11 @@ func (regEngine) Gen(r *Rand, tier string) Case {
 		}
 		g.ops = append(g.ops, "buf 1 "+strings.Join(tags, ","))
 		g.bufLen[1] = n
-		tag = "sharedbuf-safe"
+		if g.caching {
+			tag = "caching+sharedbuf-safe"
+		} else {
+			tag = "sharedbuf-safe"
+		}
 	}
 	g.body(0, true)
 	g.ops = append(g.ops, "run")
@@ -1075,6 +1285,9 @@ func (regEngine) Gen(r *Rand, tier string) Case {
 	if g.nRes > 0 {
 		g.ops = append(g.ops, "routes")
 		tag += "+res"
+	}
+	if g.nLike > 0 {
+		tag += "+likeprefix"
 	}
 	return Case{Ops: g.ops, Tag: tag}
 }
